@@ -15,11 +15,14 @@ type obsText struct {
 	flow   string // id of the nearest enclosing flow root ("" = main flow)
 	text   string // TextBox text, verbatim
 	x, y   float64
-	hidden bool   // inside an element the generator made visibility:hidden
-	pseudo string // pseudo type of the box ("marker", "before", ... "" for element text)
-	owner  string // id of the nearest enclosing element that carries an id (markers: the list item)
-	margin bool   // inside a page-margin box
-	fsZero bool   // font-size 0: webrender does not draw such text
+	hidden bool // the nearest ancestor-or-self element with a visibility declaration hides it
+	// kind of box ("inline" = InlineBox, "block" = anything else) of the nearest ancestor that
+	// declares visibility:hidden / collapse, "" when there is none; with !hidden: a re-shown run
+	hiddenBy string
+	pseudo   string // pseudo type of the box ("marker", "before", ... "" for element text)
+	owner    string // id of the nearest enclosing element that carries an id (markers: the list item)
+	margin   bool   // inside a page-margin box
+	fsZero   bool   // font-size 0: webrender does not draw such text
 }
 
 // obsDoc is everything observed from the laid-out pages.
@@ -56,22 +59,31 @@ func stripWS(s string) string {
 }
 
 // observePages walks the laid-out pages in order, depth first, children in tree order.
-func observePages(pages []*bo.PageBox, flowRoots, hiddenIDs map[string]bool) *obsDoc {
+func observePages(pages []*bo.PageBox, flowRoots, hiddenIDs, visibleIDs map[string]bool) *obsDoc {
 	od := &obsDoc{pages: len(pages), elemPages: map[string][]int{}}
 	for pi, p := range pages {
 		frags := map[string]int{}
 		od.tableFrags = append(od.tableFrags, frags)
-		var walk func(b bo.Box, flow, owner string, hidden, margin bool)
-		walk = func(b bo.Box, flow, owner string, hidden, margin bool) {
+		var walk func(b bo.Box, flow, owner string, hidden, margin bool, hiddenBy string)
+		walk = func(b bo.Box, flow, owner string, hidden, margin bool, hiddenBy string) {
+			declares := func(id string) {
+				if hiddenIDs[id] {
+					hidden = true
+					hiddenBy = "block"
+					if _, ok := b.(*bo.InlineBox); ok {
+						hiddenBy = "inline"
+					}
+				} else if visibleIDs[id] {
+					hidden = false
+				}
+			}
 			f := b.Box()
 			if f.PseudoType != "" {
 				// a pseudo-element box belongs to its element wherever it sits in the tree (the
 				// remainder of a marker split at a page bottom is a child of the root box)
 				if id := elemID(f); id != "" {
 					owner = id
-					if hiddenIDs[id] {
-						hidden = true
-					}
+					declares(id)
 				}
 			} else {
 				if id := elemID(f); id != "" {
@@ -85,9 +97,7 @@ func observePages(pages []*bo.PageBox, flowRoots, hiddenIDs map[string]bool) *ob
 					if flowRoots[id] {
 						flow = id
 					}
-					if hiddenIDs[id] {
-						hidden = true
-					}
+					declares(id)
 					switch b.(type) {
 					case *bo.TableBox, *bo.InlineTableBox:
 						frags[id]++
@@ -95,7 +105,7 @@ func observePages(pages []*bo.PageBox, flowRoots, hiddenIDs map[string]bool) *ob
 				}
 			}
 			if t, ok := b.(*bo.TextBox); ok {
-				ot := obsText{page: pi, flow: flow, text: string(t.Text), hidden: hidden, pseudo: f.PseudoType, owner: owner, margin: margin}
+				ot := obsText{page: pi, flow: flow, text: string(t.Text), hidden: hidden, hiddenBy: hiddenBy, pseudo: f.PseudoType, owner: owner, margin: margin}
 				ot.x = float64(f.PositionX)
 				ot.y = float64(f.PositionY) + float64(f.Baseline.V())
 				if f.Style != nil && f.Style.GetFontSize().Value < 1e-6 {
@@ -104,12 +114,12 @@ func observePages(pages []*bo.PageBox, flowRoots, hiddenIDs map[string]bool) *ob
 				od.texts = append(od.texts, ot)
 			}
 			for _, c := range f.Children {
-				walk(c, flow, owner, hidden, margin)
+				walk(c, flow, owner, hidden, margin, hiddenBy)
 			}
 		}
 		for _, c := range p.Children {
 			_, isMargin := c.(*bo.MarginBox)
-			walk(c, "", "", false, isMargin)
+			walk(c, "", "", false, isMargin, "")
 		}
 	}
 	return od
